@@ -126,6 +126,22 @@ Plan gen_c06(uint64_t seed, int tier)
   {
     main_ops.push_back(Op{OP_JOIN, t});
   }
+  if (nloggers >= 2 && r.chance(1, 3))
+  {
+    // quiet tail: statements through one logger, that logger is removed (asynchronously; nobody else uses it any
+    // more), then flush_log() through another logger — the statements logged before the call are still owed
+    // "written to all of their sinks and those sinks flushed"
+    int64_t victim = static_cast<int64_t>(r.below(static_cast<uint32_t>(nloggers)));
+    int64_t other = (victim + 1 + static_cast<int64_t>(r.below(static_cast<uint32_t>(nloggers - 1)))) % nloggers;
+    int k = static_cast<int>(r.range(1, 4));
+    for (int j = 0; j < k; ++j)
+    {
+      Op op = log_op(static_cast<int>(victim));
+      main_ops.push_back(op);
+    }
+    main_ops.push_back(Op{OP_REMOVE_LOGGER, victim});
+    main_ops.push_back(Op{OP_FLUSH, other, 100});
+  }
   if (r.chance(1, 2))
   {
     gen_stalls(p, r, static_cast<int>(r.range(1, 3)), grace_ns ? grace_ns * 3 : 2000);
